@@ -470,6 +470,32 @@ def flowdemux_strategy(tier):
                                   "flows": st.lists(st.integers(0, 8), min_size=1, max_size=8)})
 
 
+def flowdemux_exhaustive(tier, shard, nshards):
+    """every (number of outputs 0..5, default or not, flow id 0..8) combination"""
+    i = 0
+    for nouts in range(6):
+        for default in (False, True):
+            for f in range(9):
+                if i % nshards == shard:
+                    yield {"nouts": nouts, "default": default, "flows": [f]}
+                i += 1
+
+
+def fibdemux_exhaustive(tier, shard, nshards):
+    """all tables over flows {0,1,2} with ports in {0,1,2} (incl. missing entries and {}), 0..2 outputs, each subset of end
+    devices over {0,1}, default or not, each flow id 0..3"""
+    import itertools
+    i = 0
+    for nouts in range(3):
+        for default in (False, True):
+            for ports in itertools.product([None, 0, 1, 2], repeat=3):
+                fib = [[f, p] for f, p in enumerate(ports) if p is not None]
+                for ends in ([], [0], [1], [0, 1]):
+                    if i % nshards == shard:
+                        yield {"nouts": nouts, "default": default, "fib": fib, "ends": ends, "flows": [0, 1, 2, 3]}
+                    i += 1
+
+
 def fibdemux_strategy(tier):
     fib = st.lists(st.tuples(st.integers(0, 8), st.integers(0, 6)).map(list), max_size=6, unique_by=lambda x: x[0])
     return st.fixed_dictionaries({"nouts": st.integers(0, 4), "default": st.booleans(), "fib": fib,
@@ -534,9 +560,9 @@ PROP = Property(
           "FIB walk reproduces the path (reverse for fid+10000); e2e: packets only cross links of their own path, reach only "
           "their own sink once, emitted == delivered + counted tail drops."),
     facets=[
-        Facet("flowdemux", flowdemux_strategy, run_flowdemux, quick=400, thorough=2000,
+        Facet("flowdemux", flowdemux_strategy, run_flowdemux, quick=400, thorough=2000, exhaustive=flowdemux_exhaustive,
               essential=["hit", "miss with default", "miss without default"]),
-        Facet("fibdemux", fibdemux_strategy, run_fibdemux, quick=600, thorough=3000,
+        Facet("fibdemux", fibdemux_strategy, run_fibdemux, quick=600, thorough=3000, exhaustive=fibdemux_exhaustive,
               essential=["empty table", "end device", "table hit", "unknown flow -> default", "unknown flow, no default",
                          "entry outside outs"]),
         Facet("switch", switch_strategy, run_switch, quick=400, thorough=2000, essential=["routed", "nowhere", "empty table"]),
